@@ -90,6 +90,11 @@ type Exec struct {
 	loadBroken bool
 	// knownGo: <base>.*.go files that were Go files of a package before the run.
 	knownGo map[string]string
+	// afterCrash: an earlier run of this history was killed or hit an I/O fault;
+	// a load failure now is the C02-E4 recovery clause, not an anomaly.
+	afterCrash bool
+	// wedged: the tree no longer loads; the rest of the history is meaningless.
+	wedged bool
 }
 
 func (x *Exec) violate(prop, oracle, class, detail string, facts map[string]string) {
@@ -135,6 +140,9 @@ func (x *Exec) RunOps(ops []Op) error {
 // Do executes one op and evaluates the per-step oracles.
 func (x *Exec) Do(op Op) error {
 	defer func() { x.step++ }()
+	if x.wedged {
+		return nil
+	}
 	m := x.Sc.Module
 	switch op.Kind {
 	case "run":
@@ -374,7 +382,15 @@ func (x *Exec) doConverge(op Op) error {
 			x.violate(prop, oracle, cls, "repeating the run fault-free does not succeed: "+respErr(rec.Resp), facts)
 			return nil
 		}
-		if len(rec.Executed) == 0 && len(Diff(rec.Pre, rec.Post)) == 0 {
+		// a package whose directory cannot be hashed has no cache entry to
+		// converge to: regenerating it every time is the safe behaviour
+		hashable := 0
+		for p := range rec.Executed {
+			if _, ok := rec.Hload[p]; ok {
+				hashable++
+			}
+		}
+		if hashable == 0 && len(Diff(rec.Pre, rec.Post)) == 0 {
 			x.Env.Stats.Add("probe/converged", 1)
 			return nil
 		}
